@@ -28,7 +28,15 @@ func scenarios(r *vr.Run) []*clustermc.Scenario {
 		{Name: "q-1region-1op-anyfault", Regions: 1, Leaders: []int{1}, Budget: 1, Faults: all, MaxDepth: 80,
 			Ops: []clustermc.OpSpec{w(1, "a", "A1", 1)}},
 	}
+	// production raft-log storage (WALStorage): a new leader's entries must replace the
+	// deposed leader's conflicting uncommitted tail on disk as well
+	quick = append(quick, &clustermc.Scenario{Name: "q-wal-1region-campaign-beat-d17", Regions: 1, Leaders: []int{1}, Budget: 1, Faults: camp2, MaxBeats: 1, BeatAt: []int{2}, MaxDepth: 17, DepthBound: true, WAL: true,
+		Ops: []clustermc.OpSpec{w(1, "a", "A1", 1)}})
 	thorough := []*clustermc.Scenario{
+		{Name: "t-wal-1region-isolate-campaign-heal-beat2-d17", Regions: 1, Leaders: []int{1}, Budget: 3, Faults: cp, MaxBeats: 2, BeatAt: []int{2}, MaxDepth: 17, DepthBound: true, WAL: true,
+			Ops: []clustermc.OpSpec{w(1, "a", "A1", 1)}},
+		{Name: "t-wal-1region-campaign-2ops-beat-d17", Regions: 1, Leaders: []int{1}, Budget: 1, Faults: camp2, MaxBeats: 1, BeatAt: []int{2}, MaxDepth: 17, DepthBound: true, WAL: true,
+			Ops: []clustermc.OpSpec{w(1, "a", "A1", 1), w(1, "a", "A2", 2)}},
 		{Name: "t-2regions-3ops-nofault", Regions: 2, Leaders: []int{1, 2}, Budget: 0, MaxDepth: 120,
 			Ops: []clustermc.OpSpec{w(1, "a", "A1", 1, 2), w(2, "x", "B1", 2, 1), w(1, "a", "A2", 1)}},
 		{Name: "t-1region-2ops-anyfault", Regions: 1, Leaders: []int{1}, Budget: 1, Faults: all, MaxDepth: 120,
